@@ -2,6 +2,7 @@ import Driver.Proto
 import SimuVerif.Model.Remesh
 import SimuVerif.Model.Surface
 import SimuVerif.Model.RemeshChecks
+import SimuVerif.Model.RemeshMergeChecks
 import SimuVerif.Gen.RemeshConsts
 /-
   Model driver for C01 / C11: replays mesh construction, node displacements, refinement passes,
@@ -9,6 +10,9 @@ import SimuVerif.Gen.RemeshConsts
   and dumps the complete state in the same format as `harness/h_remesh.cpp`.
   For every single operation it also checks that the concrete model refines the abstract
   operation of `Model/Surface.lean` (`absok` / `absbad`).
+  Before every executed collapse (single `merge` requests and the collapses inside `refine`) it evaluates the
+  hypotheses of the refinement theorem `C01.merge_refines` (`chkMergeHyps`) and appends ` # mhyps <held> <not met>`
+  to the answer (counts of executed collapses); a collapse whose hypotheses are not met is not an error.
 -/
 open Simu Simu.Remesh Driver
 
@@ -36,6 +40,41 @@ def natArgs (ws : List String) : Option (List Nat) := ws.mapM String.toNat?
 
 def absCheck (before after : List Surface.Tri) : String :=
   if Surface.canon before == Surface.canon after then "absok" else "absbad"
+
+/-- replica of `refineMesh` (same statements, same order) that only counts: for every EXECUTED collapse, did
+    `chkMergeHyps` hold in the state before it?  Returns (held, not met, number of executed operations). -/
+def mergeHypsInRefine (k : RefineConsts Float) (lminSq lmaxSq : Float) (swapOn : Bool) (c : Cell Float) (maxIter : Nat) :
+    Nat × Nat × Nat :=
+  let c0 : Except Err (Cell Float) := if swapOn then removeElongated fnF k c else .ok c
+  match c0 with
+  | .error _ => (0, 0, 0)
+  | .ok c =>
+    let rec loop (fuel : Nat) (c : Cell Float) (chk : CheckSet) (iter : Nat) (held bad nops : Nat) : Nat × Nat × Nat :=
+      match fuel with
+      | 0 => (held, bad, nops)
+      | fuel + 1 =>
+        if chk.isEmpty || !(iter < c.edges.length) then (held, bad, nops)
+        else
+          match chk with
+          | [] => (held, bad, nops)
+          | e :: rest =>
+            let l2 := V3.normSq (posOf c e.n1 - posOf c e.n2)
+            if lmaxSq < l2 then
+              match splitEdge fnF k.split c e rest with
+              | .error _ => (held, bad, nops)
+              | .ok (c', chk') => loop fuel c' chk' (iter + 1) held bad (nops + 1)
+            else if l2 < lminSq then
+              match canBeMerged c e with
+              | .error _ => (held, bad, nops)
+              | .ok false => loop fuel c rest iter held bad nops
+              | .ok true =>
+                match mergeEdge fnF k.split c e rest with
+                | .error _ => (held, bad, nops)
+                | .ok (c', chk') =>
+                  if chkMergeHyps c e then loop fuel c' chk' (iter + 1) (held + 1) bad (nops + 1)
+                  else loop fuel c' chk' (iter + 1) held (bad + 1) (nops + 1)
+            else loop fuel c rest iter held bad nops
+    loop maxIter c c.edges 0 0 0 0
 
 def step (st : St) (line : String) : St × String :=
   match line.trimAscii.toString.splitOn " " with
@@ -82,7 +121,12 @@ def step (st : St) (line : String) : St × String :=
       let o := match out with
         | .returned => "returned" | .threw e => s!"threw {e.name}" | .fuelOut => "fuel"
       let ls := log.reverse.map (fun (p : Bool × Nat × Nat × Float) => s!"{if p.1 then "s" else "m"} {p.2.1} {p.2.2.1} {showF p.2.2.2}")
-      ({ st with cell := some c' }, s!"{o} ops {log.length} : {" , ".intercalate ls}")
+      -- collapses executed in this pass: were the hypotheses of `C01.merge_refines` met before each of them?
+      let nm := (log.filter (fun p => !p.1)).length
+      let mh := if nm == 0 then "" else
+        let (held, bad, nops) := mergeHypsInRefine consts (lmin * lmin) (lmax * lmax) (sw == "1") c 1000000
+        if nops == log.length && held + bad == nm then s!" # mhyps {held} {bad}" else " # mhyps-desync"
+      ({ st with cell := some c' }, s!"{o} ops {log.length} : {" , ".intercalate ls}{mh}")
     | _, _ => (st, "bad-op")
   | ["split", a, b] =>
     match st.cell, a.toNat?, b.toNat? with
@@ -115,7 +159,9 @@ def step (st : St) (line : String) : St × String :=
          match mergeEdge fnF consts.split c e [] with
          | .ok (c', _) =>
            let inew := match c.freeNodes with | i :: _ => i | [] => c.nodes.size
-           ({ st with cell := some c' }, s!"ok {absCheck (Surface.collapseT (abs c) e.n1 e.n2 inew) (abs c')}")
+           -- the hypotheses of `C01.merge_refines`, evaluated in the state BEFORE the collapse
+           let mh := if chkMergeHyps c e then "# mhyps 1 0" else "# mhyps 0 1"
+           ({ st with cell := some c' }, s!"ok {absCheck (Surface.collapseT (abs c) e.n1 e.n2 inew) (abs c')} {mh}")
          | .error x => (st, s!"err {x.name}"))
     | _, _, _ => (st, "bad-op")
   | ["swap", a, b] =>
